@@ -617,16 +617,22 @@ impl From<Vec<usize>> for Seq<text::Dna> {
 /// **Unstable** construct a `Seq` from a bitslice. This may change in the future.
 impl<A: Codec> From<&Bs> for Seq<A> {
     fn from(bs: &Bs) -> Self {
+        let mut bv: Bv = bs.into();
+        // the copy keeps the bit offset at which `bs` started inside its first word:
+        // move the content down so that the word image starts at bit 0 of word 0
+        bv.force_align();
         Seq {
             _p: PhantomData,
-            bv: bs.into(),
+            bv,
         }
     }
 }
 
 /// **Unstable** construct a `Seq` from a bitvec. This may change in the future.
 impl<A: Codec> From<Bv> for Seq<A> {
-    fn from(bv: Bv) -> Self {
+    fn from(mut bv: Bv) -> Self {
+        // a bit vector may start anywhere inside its first word (e.g. one copied from an offset slice)
+        bv.force_align();
         Seq {
             _p: PhantomData,
             bv,
